@@ -1,0 +1,17 @@
+//! Test-only hooks for external verification harnesses (feature `verif-hooks`, off by default).
+
+use std::cell::Cell;
+
+thread_local! {
+    static FORCE_LARGE_FILES: Cell<bool> = const { Cell::new(false) };
+}
+
+/// Force the builder (on this thread) to emit the large-file ("stripped cpio") payload format
+/// even though the combined file size is below 4 GiB.
+pub fn set_force_large_files(on: bool) {
+    FORCE_LARGE_FILES.with(|f| f.set(on));
+}
+
+pub(crate) fn force_large_files() -> bool {
+    FORCE_LARGE_FILES.with(|f| f.get())
+}
